@@ -183,3 +183,12 @@ Proof.
     + subst. apply Hty. left. reflexivity.
     + eapply IH; eauto. intros z Hz. apply Hty. right. assumption.
 Qed.
+
+(* the ordering always answers: an order or a cycle (its table lookups return "not a definition" for an
+   unknown variable, it never indexes a missing entry; and `S (length table)` fuel is enough) *)
+Theorem order_total tgt ss :
+  (exists l, initialization_order tgt ss = OOk l) \/ (exists c, initialization_order tgt ss = OCycle c).
+Proof.
+  destruct (topo_complete tgt ss) as [_ Hf].
+  destruct (initialization_order tgt ss) as [l|c|]; [left; eauto|right; eauto|contradiction Hf; reflexivity].
+Qed.
